@@ -181,7 +181,8 @@ double GammaLn(double x)
 	{
 		sum += cof[j] / ++y;
 	}
-	return tmp + log(2.5066282746310005 * sum / x);
+	// log(c * sum) - log(x) instead of log(c * sum / x): the quotient overflows for x < 4.6e-307 (GammaLn was +inf there).
+	return tmp + (log(2.5066282746310005 * sum) - log(x));
 }
 
 double Gamma(double x)
